@@ -5,6 +5,7 @@ import Mkdb.Driver.Sql
 import Mkdb.Driver.Console
 import Mkdb.Driver.Csv
 import Mkdb.Driver.Exec
+import Mkdb.Driver.Db
 open Mkdb.Driver
 
 def main (args : List String) : IO UInt32 := do
@@ -25,4 +26,5 @@ def main (args : List String) : IO UInt32 := do
   | ["judge", "csv"] => judgeLoop stdin stdout ({} : Csv.J) Csv.judgeLine; return 0
   | ["model", "exec"] => modelLoop stdin stdout ({} : Exec.St) Exec.stepLine; return 0
   | ["judge", "exec"] => judgeLoop stdin stdout ({} : Exec.J) Exec.judgeLine; return 0
+  | ["model", "db"] => modelLoop stdin stdout ({} : Db.St) Db.stepLine; return 0
   | _ => IO.eprintln "usage: mkdbdrv model|judge <proto>"; return 2
